@@ -45,7 +45,7 @@ def spec (s : pluginPrimitiveSigner) (payload : Bytes) : Out :=
         else
           match s.parse (GoLite.deref resp).CertificateChain with
           | (_, some e) => refuse e
-          | (certs, none) => ((GoLite.deref resp).Signature, certs, none)
+          | (certs, none) => ((GoLite.deref resp).Signature, some certs, none)
 
 /-- **Tie.** The translated function is the specification, for every signer value (every plugin
 and parser behaviour), and every payload. -/
@@ -86,7 +86,8 @@ theorem source_primitiveSign_success (s : pluginPrimitiveSigner) (payload : Byte
     ∃ resp, s.generate (requestOf s payload) = (resp, none) ∧ (requestOf s payload).Payload = payload ∧
       (GoLite.deref resp).KeyID = s.keyID ∧
       (pluginPrimitiveSigner.Sign s payload).1 = (GoLite.deref resp).Signature ∧
-      s.parse (GoLite.deref resp).CertificateChain = ((pluginPrimitiveSigner.Sign s payload).2.1, none) := by
+      (s.parse (GoLite.deref resp).CertificateChain).2 = none ∧
+      (pluginPrimitiveSigner.Sign s payload).2.1 = some (s.parse (GoLite.deref resp).CertificateChain).1 := by
   rw [source_primitiveSign_refines_spec] at *
   unfold spec at *
   repeat' split at h
@@ -122,7 +123,7 @@ def exSigner (sig : Option Bytes) (kid : String) : pluginPrimitiveSigner :=
   { keyID := "k1", keySpec := ⟨.KeyTypeEC, 384⟩, pluginConfig := [("a", "b")],
     generate := fun req => (some { KeyID := kid, Signature := sig, SigningAlgorithm := "ECDSA-SHA-384",
                                    CertificateChain := [req.Payload] }, none),
-    parse := fun ders => (some (ders.map (⟨·⟩)), none) }
+    parse := fun ders => (ders.map (⟨·⟩), none) }
 
 example : pluginPrimitiveSigner.Sign (exSigner (some [1, 2, 3]) "k1") [7, 7] = (some [1, 2, 3], some [⟨[7, 7]⟩], none) := by
   decide
